@@ -8,7 +8,7 @@ from .. import shimlab as S
 ID = "C18"
 LEVEL = "fault_enumeration"
 RULE = ("trees with two groups in nested directories and names with spaces x DIR in {outside the tree, inside the scanned "
-        "tree, on another device, relative, absolute, with trailing slash} x pre-population of the target {nothing, "
+        "tree, on another device, relative, relative with `move` started from another directory than `group`, absolute, with trailing slash} x pre-population of the target {nothing, "
         "colliding file, colliding directory, colliding dangling symlink, colliding symlink to a file} (plain runs); and "
         "for the same-device and other-device targets, empty and colliding: EVERY event k of the recorded mutating-call "
         "history with a SIGKILL before k and with call k failing with EXDEV, EIO, ENOSPC (thorough: + EPERM, EACCES). "
@@ -28,7 +28,7 @@ TREE = [
     {"p": "r/n/caf\udce9", "k": "file", "c": ["base", 300, 3]}, {"p": "r/n/caf\udce8", "k": "file", "c": ["base", 300, 3]},
     {"p": "r/m/caf\udce9", "k": "file", "c": ["base", 300, 3]},
 ]
-PLACEMENTS = ["outside", "inside", "other_device", "relative", "trailing_slash", "other_mount"]
+PLACEMENTS = ["outside", "inside", "other_device", "relative", "relative_other_cwd", "trailing_slash", "other_mount"]
 PREPOP = ["empty", "file", "dir", "dangling_symlink", "symlink_to_file"]
 
 
@@ -57,6 +57,9 @@ def target_dir(sc, placement):
         return d, d
     if placement == "relative":
         return "../moved rel", os.path.join(sc.root, "moved rel")
+    if placement == "relative_other_cwd":
+        # `move` is started from another directory than `group` was: DIR is relative to where `move` runs
+        return "moved rel2", os.path.join(sc.root, "other cwd", "moved rel2")
     if placement == "other_mount":
         # a mount point fclones' own mount table knows: no rename attempt, straight copy + delete
         d = os.path.join(C.EXT4, "fcv.%d.c18loop" % os.getpid(), "moved")
@@ -99,6 +102,11 @@ def _evaluate(case):
             droppable += ps[1:]
         collide = droppable[0]
         outside_victim = os.path.join(sc.root, "victim")
+
+        run_cwd = None
+        if case["placement"] == "relative_other_cwd":
+            run_cwd = os.path.join(sc.root, "other cwd")
+            os.makedirs(run_cwd, exist_ok=True)
 
         def rebuild():
             C.rmtree(sc.tree)
@@ -180,7 +188,7 @@ def _evaluate(case):
             victim_existed = os.path.lexists(outside_victim)
             args = ["move", arg]
             env = {"RAYON_NUM_THREADS": "1"}
-            rec = S.run_with_shim(sc, args, roots, "m", stdin=report, env_extra=env)
+            rec = S.run_with_shim(sc, args, roots, "m", stdin=report, env_extra=env, cwd=run_cwd)
             evals += 1
             if rec["rc"] != 0 or "panicked" in rec["err"]:
                 viol.append({"kind": "crash", "placement": case["placement"], "prepop": case["prepop"], "fault": "none",
@@ -189,7 +197,7 @@ def _evaluate(case):
             reached.append([case["placement"], case["prepop"], "plain"])
             if case["sweep"]:
                 rebuild()
-                rec2 = S.run_with_shim(sc, args, roots, "m", stdin=report, env_extra=env)
+                rec2 = S.run_with_shim(sc, args, roots, "m", stdin=report, env_extra=env, cwd=run_cwd)
                 d = S.same_history(rec["events"], rec2["events"])
                 if d:
                     raise C.MachineryError("recording not deterministic: %s" % d)
@@ -204,9 +212,9 @@ def _evaluate(case):
                     pre_s = C.inventory(sc.tree)
                     evals += 1
                     if f == "kill":
-                        res = S.run_with_shim(sc, args, roots, "m", stdin=report, mode="kill", at=k, env_extra=env)
+                        res = S.run_with_shim(sc, args, roots, "m", stdin=report, mode="kill", at=k, env_extra=env, cwd=run_cwd)
                     else:
-                        res = S.run_with_shim(sc, args, roots, "m", stdin=report, mode="fail", at=k, errno=S.ERRNO[f], env_extra=env)
+                        res = S.run_with_shim(sc, args, roots, "m", stdin=report, mode="fail", at=k, errno=S.ERRNO[f], env_extra=env, cwd=run_cwd)
                     d = S.same_history(events, res["events"], upto=min(k, len(res["events"])))
                     if d:
                         raise C.MachineryError("prefix diverged before event %d: %s" % (k, d))
